@@ -44,9 +44,12 @@ type Inst struct {
 	PedBatchVerify func(vks, commitments, poks []any, coeff *big.Int) error
 
 	// mpcsetup: proof handles are *mpcsetup.UpdateProof
-	NewProof      func() any
-	UpdateValues  func(x *big.Int, challenge []byte, dst byte, reps []Repr) (proof any, updated []Repr, used *big.Int) // x nil: library samples
-	ProofVerify   func(proof any, challenge []byte, dst byte, prev, next []Repr) error
+	NewProof     func() any
+	UpdateValues func(x *big.Int, challenge []byte, dst byte, reps []Repr) (proof any, updated []Repr, used *big.Int) // x nil: library samples
+	ProofVerify  func(proof any, challenge []byte, dst byte, prev, next []Repr) error
+	// PokBase is the documented challenge point of the proof of knowledge, "R in G2 as Hash(g^s, challenge, dst)":
+	// HashToG2(commitment.Marshal() || challenge, {dst}) through the exported hash-to-curve function.
+	PokBase       func(commitment any, challenge []byte, dst byte) (any, error)
 	ProofWrite    func(proof any) ([]byte, error)
 	ProofRead     func(data []byte) (any, error)
 	SameRatioMany func(slices []Repr) error
